@@ -235,12 +235,14 @@ val to_signed : n -> n -> z
 
 val of_signed : n -> z -> n
 
+val rd_le : n list -> n -> n -> n res
+
+val rd_be : n list -> n -> n -> n res
+
 type trg = { t_udp : n; t_ts : n; t_out : n; t_in : n; t_pulser : n;
              t_trigbm : n; t_nim : n; t_esata : n; t_mlu : bool; t_aw16p : 
              n; t_drift : n; t_scaled : n; t_aw16m : n; t_aw16b : n;
              t_bsc : n; t_bscm : n; t_coin : n; t_fw : n }
-
-val rd_le : n list -> n -> n -> n res
 
 val e_len : n
 
@@ -300,8 +302,6 @@ type adc = { a_trig : n; a_module : n; a_chan : n; a_req : n; a_ts :
 val bASELINE_SAMPLES : n
 
 val mIN_KEEP_LAST : n
-
-val rd_be : n list -> n -> n -> n res
 
 val list_eqb : n list -> n list -> bool
 
